@@ -346,6 +346,30 @@ def run(R):
                         R.violation("C20.ERASE", "%s:%s:non-if" % (f.qualname, node.attr), R.site(f, node),
                                     "option %s is read outside an `if` test (%s): its value flows into the computation" % (node.attr, q.stmt_key(q.enclosing_stmt(node), 60)))
     common.future_truthiness(R, "C20.ERASE")
+    # what a diagnostic line interpolates goes through debug.str()/debug.repr() (qcore's safe_str/safe_repr): formatting an arbitrary
+    # user object with a bare %s/%r runs its __str__/__repr__, and an exception raised there is delivered to the task as if its
+    # yield had failed - only with the option on
+    n_fmt = 0
+    for f in repo.all_functions():
+        if f.module.name in ("debug", "_debug"):
+            continue
+        px = f.pxd()
+        for c in q.calls(f.node):
+            if (q.call_name(c) or "") not in ("debug.write",) or not c.args or not (isinstance(c.args[0], ast.BinOp) and isinstance(c.args[0].op, ast.Mod)):
+                continue
+            ops = c.args[0].right
+            for e in (ops.elts if isinstance(ops, ast.Tuple) else [ops]):
+                n_fmt += 1
+                safe = isinstance(e, ast.Constant) or (isinstance(e, ast.Call) and (q.call_name(e) or "") in ("debug.str", "debug.repr", "len", "str", "repr", "int") and
+                                                        ((q.call_name(e) or "").startswith("debug.") or (q.call_name(e) == "len")))
+                if not safe and isinstance(e, ast.Attribute) and q.src(e.value) == "self" and f.cls is not None:
+                    t_, _o = f.cls.field_type(e.attr)
+                    safe = t_ in C_INT_TYPES or t_ in C_FLOAT_TYPES or t_ in ("str", "bint")
+                R.check(safe, "C20.DIAG-PURE", "%s:fmt:%s" % (f.qualname, q.src(e)[:30]), R.site(f, c),
+                        "`%s` is interpolated safely" % q.src(e)[:40],
+                        "the diagnostic line in %s interpolates `%s` directly: an object whose __str__/__repr__ raises makes the computation fail only when "
+                        "the dump option is on (debug.str()/debug.repr() contain such failures)" % (f.qualname, q.src(e)[:40]))
+    R.need(n_fmt >= 20, "fewer interpolated diagnostic operands than confirmed by hand (%d < 20)" % n_fmt)
     R.units["option_guards"] = n_guards
     R.need(n_guards >= 28, "fewer option-guarded branches than confirmed by hand (%d < 28)" % n_guards)
     # ---- diagnostic code cannot start a computation (debug.str(x) -> x.__str__)
@@ -419,6 +443,18 @@ def semantic_option(R, ro, f, node, name, pol, site, key):
         ok = all(isinstance(s, ast.Assert) for s in on) and not off
         R.check(ok, "C20.SEMANTIC", key, site, "ENABLE_COMPLEX_ASSERTIONS guards only assert statements",
                 "ENABLE_COMPLEX_ASSERTIONS guards more than assertions in %s" % f.qualname)
+        # ... and only assertions about what KIND of object was handed in (type predicates), which no program using the public API
+        # can make fail; an assertion about an object's state (a method call on it) rejects programs that otherwise run, so it
+        # must not depend on the option
+        TYPE_PREDS = ("isinstance", "issubclass", "callable", "type", "hasattr", "len")
+        for s_ in on:
+            if not isinstance(s_, ast.Assert):
+                continue
+            bad = [q.src(c)[:50] for c in q.calls(s_.test)
+                   if not ((isinstance(c.func, ast.Name) and c.func.id in TYPE_PREDS) or (q.call_name(c) or "").startswith(("core_inspection.", "inspect.")))]
+            R.check(not bad, "C20.SEMANTIC", key + ":kind", site, "the guarded assertion only applies type predicates to its arguments",
+                    "the assertion that ENABLE_COMPLEX_ASSERTIONS switches in %s asks about the state of an object (%s): with the option off a program that "
+                    "violates it runs on silently, with it on it fails - the option changes behaviour" % (f.qualname, "; ".join(bad)))
         return
     # KEEP_DEPENDENCIES: the guarded statement only drops references that nothing behavioural reads
     on = node.body if pol else node.orelse      # executed when the option is ON
